@@ -321,6 +321,7 @@ class TSQLGenerator(generator.Generator):
             not all(isinstance(arg, exp.Literal) for arg in (this, delimiter, part_index))
             or (delimiter and delimiter.name != ".")
             or not part_index
+            or not part_index.is_int
             or split_count > 4
         ):
             self.unsupported(
